@@ -145,6 +145,7 @@ type FuncSpec struct {
 	Loops     map[int]*LoopSpec
 	Trusted   bool // "assume": contract is not verified against the body
 	Inline    bool
+	IndexSafe bool // "indexsafe": no index / slice / make / integer-division / nil-map runtime error on any path
 	FnParams  map[string]*FnParamSpec
 	Props     []string // properties this function's obligations belong to by default
 	Src       string
@@ -737,7 +738,7 @@ type rawLine struct {
 }
 
 var topKeywords = map[string]bool{"func": true, "spec": true, "pred": true, "lemma": true, "ifacemethod": true, "wire": true}
-var clauseKeywords = map[string]bool{"assumes": true, "returnhint": true, "callhint": true, "refines": true, "requires": true, "ensures": true, "panics_if": true, "panics_iff": true, "nopanic": true,
+var clauseKeywords = map[string]bool{"assumes": true, "returnhint": true, "callhint": true, "indexsafe": true, "refines": true, "requires": true, "ensures": true, "panics_if": true, "panics_iff": true, "nopanic": true,
 	"assigns": true, "loop": true, "trusted": true, "inline": true, "fnparam": true, "property": true, "maxpaths": true,
 	"opaque": true, "unfold": true, "json": true, "gotypes": true}
 
@@ -1034,6 +1035,8 @@ func parseClauseInto(fs *FuncSpec, l rawLine) error {
 		fs.Trusted = true
 	case "inline":
 		fs.Inline = true
+	case "indexsafe":
+		fs.IndexSafe = true
 	case "property":
 		fs.Props = append(fs.Props, strings.Fields(body)...)
 	case "maxpaths":
